@@ -19,7 +19,7 @@ ASSUMPTIONS = ["a process forked from the parent that has imported pygradflow bu
 FRESH = True
 CASE_ALARM_S = 300
 OPS_QUICK = ["default", "exact_filter", "resolve", "scaled", "scaled_b", "lamerr", "cb_abort", "pareto", "nostart_then_y"]
-OPS_THOROUGH = OPS_QUICK + ["unsym", "derivcheck", "debug", "integration", "second", "rcond_single", "exp_far", "singular", "banded"]
+OPS_THOROUGH = OPS_QUICK + ["unsym", "derivcheck", "debug", "integration", "second", "rcond_single", "exp_far", "singular", "banded", "longlp", "single_tiny"]
 
 
 _SHARED = {}
@@ -100,6 +100,16 @@ def op_setup(op):
         # size is reduced); whatever that failure leaves behind must not reach later solves
         spec = G.raw(2, {"H": [[-1.0, 0.0], [0.0, -1.0]], "g": [0.25, -0.5]}, [], [-1.0, -2.0], [1.0, 1.5], [0.5, 0.25], "concave_singular_first_step")
         params = R.make_params({"iteration_limit": 40, "params": {"lamb_init": 1.0}})
+        prob = UserProblem(spec)
+    elif op == "longlp":
+        # linear objective over a very long box with default parameters: the step size grows for many iterations (lambda far below 1e-7)
+        spec = G.raw(2, {"H": [[0.0, 0.0], [0.0, 0.0]], "g": [-1.0, -1.0]}, [], [0.0, 0.0], [1e8, 3e8], [0.0, 0.0], "long_lp_box")
+        params = R.make_params({"iteration_limit": 200})
+        prob = UserProblem(spec)
+    elif op == "single_tiny":
+        # an unrelated tiny solve in single precision
+        spec = G.raw(1, {"H": [[2.0]], "g": [-2.0]}, [], ["-inf"], ["inf"], [0.0], "tiny_single")
+        params = R.make_params({"iteration_limit": 30, "params": {"precision": "Single"}})
         prob = UserProblem(spec)
     elif op == "banded":
         # 30 variables, 6 rows: large enough for fill-reducing orderings of the factorisation to matter
@@ -260,7 +270,7 @@ def references(tier):
     return refs
 
 
-PAIR_OPS = ["rcond_single", "exp_far", "default", "singular", "banded"]
+PAIR_OPS = ["rcond_single", "exp_far", "default", "singular", "banded", "longlp", "single_tiny"]
 
 
 def cases(tier, seed):
